@@ -68,7 +68,8 @@ Lemma case_meaning_traversals : forall rest,
        (flags <> 0 -> length cof = length g /\
           forall c v, In v (comp_at compsN c) -> nth (N.to_nat v) cof (-1) = Z.of_nat c) /\
        length outsN = length compsN /\
-       (if Z.testbit flags 1 then scc_edges_spec g compsN outsN else Forall (fun l => l = []) outsN)).
+       (if Z.testbit flags 1 then scc_edges_spec g compsN outsN else Forall (fun l => l = []) outsN) /\
+       Forall (StronglySorted N.lt) outsN).
 Proof. intro rest. repeat match goal with |- _ /\ _ => split | |- _ <-> _ => split end; exact (fun H => H). Qed.
 Lemma case_meaning_graphops : forall rest,
   (bigraph_case_ok rest <-> exists g insN,
